@@ -141,6 +141,50 @@ def main():
             print(f"theorems that should have failed but did not: {sorted(missing)}")
         if failed_fns != expected_fns or missing or prob1:
             ok = False
+        # --- regression cases of the third audit (each alone)
+        AR = "src/cc_array.c"
+        EXTRA = [
+            ("a second rejection added behind the guard of cc_array_get_at",
+             [(AR, "cc_array_get_at", "    *out = ar->buffer[index];",
+               "    if (index == 3)\n        return CC_ERR_OUT_OF_RANGE;\n    *out = ar->buffer[index];")],
+             {"array_get_at_error_returns"}, False),
+            ("`#define size capacity` above struct cc_array_s (every guard reading ar->size must be refused)",
+             [(AR, None, "struct cc_array_s {", "#define size capacity\nstruct cc_array_s {")], None, True),
+            ("the container's own field is no longer size_t although another struct of the file has a `size_t size;`",
+             [(AR, None, "struct cc_array_s {\n    size_t   size;", "struct other_s { size_t size; };\nstruct cc_array_s {\n    uint32_t size;")],
+             None, True),
+            ("an octal literal in a guard: `index >= 010` is 8, not 10",
+             [(AR, "cc_array_get_at", "index >= ar->size", "index >= 010")], {"array_get_at_guard"}, False),
+        ]
+        for k, (label, edits, expected, want_problem) in enumerate(EXTRA):
+            rp = tmp / f"repoX{k}"
+            shutil.copytree(REPO / "src", rp / "src")
+            for f, fn, o, n in edits:
+                if fn is None:
+                    q = rp / f
+                    t0 = q.read_text()
+                    if t0.count(o) != 1:
+                        raise SystemExit(f"self-test: `{o}` occurs {t0.count(o)} times in {f}")
+                    q.write_text(t0.replace(o, n))
+                else:
+                    mutate(rp, f, fn, o, n)
+            badx, probx, linesx, txtx = failing_theorems(tmp, rp, f"extra{k}")
+            if want_problem:
+                good = bool(probx) and all("cc_array" in x for x in probx)
+                print(f"[{'ok' if good else 'FAIL'}] {label}: refused with {len(probx)} problem(s), e.g. {probx[0] if probx else '-'}")
+            else:
+                good = set(badx) >= expected and not probx and all(
+                    b in expected or b.startswith("example") or b.replace("_error_returns", "_guard") in expected
+                    or b.replace("_guard", "_error_returns") in expected for b in badx)
+                print(f"[{'ok' if good else 'FAIL'}] {label}: failing {sorted(badx)}; expected {sorted(expected)}")
+                if "octal" in label:
+                    d = [l for l in txtx.split("\n") if l.startswith("def cc_array_get_at_guard ")]
+                    print("        regenerated:", d[0] if d else "-")
+                    good = good and bool(d) and "≥ 8" in d[0]
+            if not good:
+                for x in probx[:4] + linesx[:6]:
+                    print("       ", x)
+            ok = ok and good
     after = hashlib.sha256((GEN / "Guards.lean").read_bytes()).hexdigest()
     print(f"Generated/Guards.lean in the tree untouched: {before == after}")
     ok = ok and before == after
